@@ -14,7 +14,7 @@ import itertools
 
 from .source import AnalysisError, ClassInfo, FunctionInfo, Project, norm_text
 
-UNION = ('deps', 'prov', 'taint', 'retains')
+UNION = ('deps', 'prov', 'taint', 'retains', 'origin')
 
 
 class AV:
@@ -348,7 +348,8 @@ class Interp:
         # tag parameters with their origin (dependency facet)
         for k, v in list(env.items()):
             if v is not None:
-                env[k] = v.w(deps=(v.deps or frozenset()) | {f'param:{fi.name}.{k}'})
+                env[k] = v.w(deps=(v.deps or frozenset()) | {f'param:{fi.name}.{k}'},
+                             origin=(v.origin or frozenset()) | {f'{fi.name}.{k}'})
         fst = State(env, st.heap)
         frame = Frame(fi, fi.module, fst, closure=closure)
         frame.self_av = self_av
@@ -407,6 +408,7 @@ class Interp:
             self._modconst[key] = TOP
             v = self.eval_in_module(module.assigns[name], module, st)
             v = v.w(deps=(v.deps or frozenset()) | {f'global:{module.name}.{name}'}, gname=f'{module.name}.{name}')
+            v = self.model.global_constant(v, module, name)
             self._modconst[key] = v
             return v
         if name in module.imports:
@@ -926,7 +928,13 @@ class Interp:
         return v
 
     def e_BoolOp(self, n, frame, st):
-        vals = [self.eval(v, frame, st) for v in n.values]
+        # short-circuit: later operands are evaluated under the refinement of the earlier ones
+        cur = st.copy()
+        vals = []
+        for v in n.values:
+            vals.append(self.eval(v, frame, cur))
+            self.model.refine(self, v, frame, cur, isinstance(n.op, ast.And))
+        st.heap = cur.heap
         return self.model.boolop(self, st, n.op, vals, n)
 
     def e_UnaryOp(self, n, frame, st):
